@@ -231,7 +231,7 @@ Definition dense (n : nat) (v : list prov) : list prov := repeat (PVal (vdeps v)
 (* a block acting on a whole row matrix [tokens, channels] mixing everything (nn.TransformerEncoder,
    GroupNorm per sample): same shape, every output depends on every input of the row *)
 Definition dense_mat (m : list (list prov)) : list (list prov) :=
-  map (fun v => map (fun _ => PVal (mdeps m)) v) m.
+  let d := PVal (mdeps m) in map (fun v => map (fun _ => d) v) m.
 
 Definition bmat_eqb (a b : list (list bool)) : bool :=
   (length a =? length b) &&
